@@ -264,7 +264,7 @@ theorem nodesOk_stat {s ex ev ga T} (h : NodesOk s ex ev ga T) (c : Ctx) (f : No
 /-! ## ledger facts -/
 
 theorem info_cons_ne (x : TOp) (r : List TOp) (id : Nat) (h : x.2.addr ≠ id) : info (x :: r) id = info r id := by
-  simp [info, h]
+  simp [info, infoStep, h]
 
 theorem info_entry_other (t : Nat) (e : EntryOp) (r : List TOp) (id : Nat) (h : e.id ≠ id) :
     info ((t, .entry e) :: r) id = info r id := info_cons_ne _ _ _ h
@@ -277,22 +277,22 @@ theorem info_entry_fresh (t : Nat) (e : EntryOp) (r : List TOp) (h : info r e.id
     info ((t, .entry e) :: r) e.id =
       some { e := e, t0 := t, err := if outcome e.chain = .panic then some "panic" else none,
              done := decide (outcome e.chain = .block) } := by
-  simp [info, Op.addr, h]
+  simp [info, infoStep, Op.addr, h]
 theorem info_entry_dup (t : Nat) (e : EntryOp) (r : List TOp) (i : Info) (h : info r e.id = some i) :
     info ((t, .entry e) :: r) e.id = some i := by
-  simp [info, Op.addr, h]
+  simp [info, infoStep, Op.addr, h]
 theorem info_trace_none (t id : Nat) (err : Option String) (r : List TOp) (h : info r id = none) :
     info ((t, .trace id err) :: r) id = none := by
-  simp [info, Op.addr, h]
+  simp [info, infoStep, Op.addr, h]
 theorem info_trace_some (t id : Nat) (err : Option String) (r : List TOp) (i : Info) (h : info r id = some i) :
     info ((t, .trace id err) :: r) id = if i.done then some i else some { i with err := orErr err i.err } := by
-  simp [info, Op.addr, h]
+  simp [info, infoStep, Op.addr, h]
 theorem info_exit_none (t id : Nat) (err : Option String) (r : List TOp) (h : info r id = none) :
     info ((t, .exit id err) :: r) id = none := by
-  simp [info, Op.addr, h]
+  simp [info, infoStep, Op.addr, h]
 theorem info_exit_some (t id : Nat) (err : Option String) (r : List TOp) (i : Info) (h : info r id = some i) :
     info ((t, .exit id err) :: r) id = if i.done then some i else some { i with err := orErr err i.err, done := true } := by
-  simp [info, Op.addr, h]
+  simp [info, infoStep, Op.addr, h]
 
 /-- general shape: a later op either leaves the account of `id` alone or yields an account with the same entry op;
     `P` is any property of accounts preserved by "set error" and "finish" -/
@@ -351,6 +351,18 @@ theorem info_id (h : List TOp) (id : Nat) (i : Info) (hi : info h id = some i) :
   info_induct (fun i => i.e.id = id) h id i hi (by intro t e he; exact he) (by intro j err hj _; exact hj)
     (by intro j err hj _; exact hj)
 
+theorem nodeExists_entry (t : Nat) (e : EntryOp) (r : List TOp) (res : String) :
+    nodeExists ((t, .entry e) :: r) res =
+      (nodeExists r res || ((info r e.id).isNone && attached e.chain && decide (e.res = res))) := by
+  simp only [nodeExists, nodeNewI, Op.addr]
+  by_cases h1 : (info r e.id).isNone = true <;> by_cases h2 : attached e.chain = true <;> simp [h1, h2]
+theorem nodeExists_trace (t id : Nat) (err : Option String) (r : List TOp) (res : String) :
+    nodeExists ((t, .trace id err) :: r) res = nodeExists r res := by
+  simp [nodeExists, nodeNewI]
+theorem nodeExists_exit (t id : Nat) (err : Option String) (r : List TOp) (res : String) :
+    nodeExists ((t, .exit id err) :: r) res = nodeExists r res := by
+  simp [nodeExists, nodeNewI]
+
 /-- an entry whose prepare phase reached the node slot has a node -/
 theorem info_attached_exists (h : List TOp) (id : Nat) (i : Info) (hi : info h id = some i)
     (ha : attached i.e.chain = true) : nodeExists h i.e.res = true := by
@@ -358,9 +370,9 @@ theorem info_attached_exists (h : List TOp) (id : Nat) (i : Info) (hi : info h i
   | nil => simp [info] at hi
   | cons x r ih =>
     obtain ⟨t, op⟩ := x
-    simp only [nodeExists, Bool.or_eq_true]
     cases op with
     | entry e =>
+      rw [nodeExists_entry]; simp only [Bool.or_eq_true]
       by_cases he : e.id = id
       · subst he
         cases hr : info r e.id with
@@ -370,7 +382,7 @@ theorem info_attached_exists (h : List TOp) (id : Nat) (i : Info) (hi : info h i
         | some j => rw [info_entry_dup _ _ _ _ hr] at hi; simp only [Option.some.injEq] at hi; subst hi; left; exact ih _ hr ha
       · rw [info_entry_other _ _ _ _ he] at hi; left; exact ih _ hi ha
     | trace j err =>
-      left
+      rw [nodeExists_trace]
       by_cases he : j = id
       · subst he
         cases hr : info r j with
@@ -382,7 +394,7 @@ theorem info_attached_exists (h : List TOp) (id : Nat) (i : Info) (hi : info h i
           · simp only [hd, Bool.false_eq_true, if_false, Option.some.injEq] at hi; subst hi; exact ih k hr ha
       · rw [info_trace_other _ _ _ _ _ he] at hi; exact ih _ hi ha
     | exit j err =>
-      left
+      rw [nodeExists_exit]
       by_cases he : j = id
       · subst he
         cases hr : info r j with
@@ -401,11 +413,12 @@ theorem noNode_empty (fix : Bool) (h : List TOp) (res : String) (hn : nodeExists
   | nil => exact ⟨rfl, rfl⟩
   | cons x r ih =>
     obtain ⟨t, op⟩ := x
-    simp only [nodeExists, Bool.or_eq_false_iff] at hn
+    simp only [nodeExists, nodeNewI, Op.addr, Bool.or_eq_false_iff] at hn
     obtain ⟨e1, e2⟩ := ih hn.1
     have hx := hn.2
     simp only [evs, gauge, e1, e2, List.nil_append, zero_add]
-    unfold contrib gaugeDelta
+    unfold contrib gaugeDelta contribI gaugeDeltaI
+    simp only [Op.addr]
     cases op with
     | entry e =>
       simp only at hx ⊢
@@ -468,9 +481,9 @@ theorem sim_trace {fix t0 h s} (hs : Sim fix t0 h s) (t id : Nat) (err : Option 
   refine ⟨?_, ?_, ?_⟩
   · apply nodesOk_ext _ hinb hnodes
     apply nodesOk_congr (nodesOk_mono hs.nodes hT)
-    · intro r; simp [nodeExists]
-    · intro k; simp [evs, contrib]
-    · intro k; simp [gauge, gaugeDelta]
+    · intro r; simp [nodeExists, nodeNewI, Op.addr]
+    · intro k; simp [evs, contrib, contribI, Op.addr]
+    · intro k; simp [gauge, gaugeDelta, gaugeDeltaI, Op.addr]
   · intro id'
     have he := hs.ents id
     by_cases hid : id = id'
@@ -501,7 +514,7 @@ theorem sim_trace {fix t0 h s} (hs : Sim fix t0 h s) (t id : Nat) (err : Option 
         · cases err with
           | none => rfl
           | some x => simp [hid]
-  · rw [hlog, hs.log]; simp [recLog, recContrib]
+  · rw [hlog, hs.log]; simp [recLog, recContrib, recContribI, Op.addr]
 
 /-- the node part of a statistic callback -/
 def statCore (s : St) (c : Ctx) (f : Node → Node) : St := if c.e.chain.std then onStat s c f else s
@@ -531,14 +544,14 @@ theorem sim_exit {fix t0 h s} (hs : Sim fix t0 h s) (t id : Nat) (err : Option S
     rw [hst]
     refine ⟨?_, ?_, ?_⟩
     · apply nodesOk_congr (nodesOk_mono hs.nodes hT)
-      · intro r; simp [nodeExists]
-      · intro k; simp [evs, contrib, hi]
-      · intro k; simp [gauge, gaugeDelta, hi]
+      · intro r; simp [nodeExists, nodeNewI, Op.addr]
+      · intro k; simp [evs, contrib, contribI, Op.addr, hi]
+      · intro k; simp [gauge, gaugeDelta, gaugeDeltaI, Op.addr, hi]
     · intro id'
       by_cases hid : id = id'
       · subst hid; rw [info_exit_none _ _ _ _ hi, he]; rfl
       · rw [other id' hid]; exact hs.ents id'
-    · rw [hs.log]; simp [recLog, recContrib, hi]
+    · rw [hs.log]; simp [recLog, recContrib, recContribI, Op.addr, hi]
   | some i =>
     obtain ⟨ie, it0, ierr, idone⟩ := i
     rw [hi] at he; simp only [Option.map] at he
@@ -548,14 +561,14 @@ theorem sim_exit {fix t0 h s} (hs : Sim fix t0 h s) (t id : Nat) (err : Option S
       rw [hst]
       refine ⟨?_, ?_, ?_⟩
       · apply nodesOk_congr (nodesOk_mono hs.nodes hT)
-        · intro r; simp [nodeExists]
-        · intro k; simp [evs, contrib, hi]
-        · intro k; simp [gauge, gaugeDelta, hi]
+        · intro r; simp [nodeExists, nodeNewI, Op.addr]
+        · intro k; simp [evs, contrib, contribI, Op.addr, hi]
+        · intro k; simp [gauge, gaugeDelta, gaugeDeltaI, Op.addr, hi]
       · intro id'
         by_cases hid : id = id'
         · subst hid; rw [info_exit_some _ _ _ _ _ hi, he]; rfl
         · rw [other id' hid]; exact hs.ents id'
-      · rw [hs.log]; simp [recLog, recContrib, hi]
+      · rw [hs.log]; simp [recLog, recContrib, recContribI, Op.addr, hi]
     | false =>
       have hnb : outcome ie.chain ≠ .block := by
         intro hb; have := info_block_done h id _ hi hb; simp at this
@@ -572,18 +585,18 @@ theorem sim_exit {fix t0 h s} (hs : Sim fix t0 h s) (t id : Nat) (err : Option S
       refine ⟨?_, ?_, ?_⟩
       · refine nodesOk_ext (s := statCore s c1 f) ?_ rfl rfl
         apply nodesOk_congr (nodesOk_statCore hs.nodes c1 f _ (-1) t (acts_complete t ie.batch (t - it0) _ ht) hT)
-        · intro r; simp [nodeExists]
+        · intro r; simp [nodeExists, nodeNewI, Op.addr]
         · intro k
           have := touches_ctx ie c1 rfl rfl k
-          simp [evs, contrib, hi, this, c1]
+          simp [evs, contrib, contribI, Op.addr, hi, this, c1]
         · intro k
           have := touches_ctx ie c1 rfl rfl k
-          simp [gauge, gaugeDelta, hi, this, c1]
+          simp [gauge, gaugeDelta, gaugeDeltaI, Op.addr, hi, this, c1]
       · intro id'
         by_cases hid : id = id'
         · subst hid; rw [info_exit_some _ _ _ _ _ hi]; simp [ctxOf, c1]
         · rw [other id' hid]; simp only [findE_cons, hid, if_false, statCore_ents]; exact hs.ents id'
-      · simp only [statCore_log, hs.log]; simp [recLog, recContrib, hi]
+      · simp only [statCore_log, hs.log]; simp [recLog, recContrib, recContribI, Op.addr, hi]
 
 theorem chainEntry_eq (fix : Bool) (s : St) (c : Ctx) (t : Nat) :
     chainEntry fix s c t =
@@ -609,14 +622,14 @@ theorem sim_entry {fix t0 h s} (hs : Sim fix t0 h s) (t : Nat) (e : EntryOp) (hT
     rw [hst]
     refine ⟨?_, ?_, ?_⟩
     · apply nodesOk_congr (nodesOk_mono hs.nodes hT)
-      · intro r; simp [nodeExists, hi]
-      · intro k; simp [evs, contrib, hi]
-      · intro k; simp [gauge, gaugeDelta, hi]
+      · intro r; simp [nodeExists, nodeNewI, Op.addr, hi]
+      · intro k; simp [evs, contrib, contribI, Op.addr, hi]
+      · intro k; simp [gauge, gaugeDelta, gaugeDeltaI, Op.addr, hi]
     · intro id'
       by_cases hid : e.id = id'
       · subst hid; rw [info_entry_dup _ _ _ _ hi, he]; rfl
       · rw [other id' hid]; exact hs.ents id'
-    · rw [hs.log]; simp [recLog, recContrib, hi]
+    · rw [hs.log]; simp [recLog, recContrib, recContribI, Op.addr, hi]
   | none =>
     rw [hi] at he; simp only [Option.map] at he
     -- the prepare phase
@@ -626,12 +639,12 @@ theorem sim_entry {fix t0 h s} (hs : Sim fix t0 h s) (t : Nat) (e : EntryOp) (hT
       · have := nodesOk_getOrCreate hs.nodes e.res t hT (fun hn => noNode_empty fix h e.res hn)
         simp only [s1, ha, if_true]
         apply nodesOk_congr this
-        · intro r; simp [nodeExists, hi, ha, eq_comm]
+        · intro r; simp [nodeExists, nodeNewI, Op.addr, hi, ha, eq_comm]
         · intro k; rfl
         · intro k; rfl
       · simp only [s1, ha]
         apply nodesOk_congr (nodesOk_mono hs.nodes hT)
-        · intro r; simp [nodeExists, hi, ha]
+        · intro r; simp [nodeExists, nodeNewI, Op.addr, hi, ha]
         · intro k; rfl
         · intro k; rfl
     have hents1 : s1.ents = s.ents := by simp only [s1]; split_ifs <;> rfl
@@ -655,13 +668,13 @@ theorem sim_entry {fix t0 h s} (hs : Sim fix t0 h s) (t : Nat) (e : EntryOp) (hT
       · refine nodesOk_ext (s := statCore s1 c1 f) ?_ rfl rfl
         apply nodesOk_congr (nodesOk_statCore hN1 c1 f _ 1 t (acts_pass t e.batch ht) (le_refl _))
         · intro r; rfl
-        · intro k; have := htc c1 rfl rfl k; simp [evs, contrib, hi, this, ho, c1]
-        · intro k; have := htc c1 rfl rfl k; simp [gauge, gaugeDelta, hi, this, ho, countsPass, c1]
+        · intro k; have := htc c1 rfl rfl k; simp [evs, contrib, contribI, Op.addr, hi, this, ho, c1]
+        · intro k; have := htc c1 rfl rfl k; simp [gauge, gaugeDelta, gaugeDeltaI, Op.addr, hi, this, ho, countsPass, c1]
       · intro id'
         by_cases hid : e.id = id'
         · subst hid; rw [hinfo]; simp [ctxOf, c1, ho]
         · rw [other id' hid]; simp only [findE_cons, hid, if_false, statCore_ents, hents1]; exact hs.ents id'
-      · simp only [statCore_log, hlog1, hs.log]; simp [recLog, recContrib, hi, ho]
+      · simp only [statCore_log, hlog1, hs.log]; simp [recLog, recContrib, recContribI, Op.addr, hi, ho]
     | block =>
       let f := recordBlock t e.batch
       have hst : apiEntry fix s t e =
@@ -675,13 +688,13 @@ theorem sim_entry {fix t0 h s} (hs : Sim fix t0 h s) (t : Nat) (e : EntryOp) (hT
       · refine nodesOk_ext (s := statCore s1 c1 f) ?_ rfl rfl
         apply nodesOk_congr (nodesOk_statCore hN1 c1 f _ 0 t (acts_block t e.batch ht) (le_refl _))
         · intro r; rfl
-        · intro k; have := htc c1 rfl rfl k; simp [evs, contrib, hi, this, ho, c1]
-        · intro k; have := htc c1 rfl rfl k; simp [gauge, gaugeDelta, hi, this, ho, countsPass, c1]
+        · intro k; have := htc c1 rfl rfl k; simp [evs, contrib, contribI, Op.addr, hi, this, ho, c1]
+        · intro k; have := htc c1 rfl rfl k; simp [gauge, gaugeDelta, gaugeDeltaI, Op.addr, hi, this, ho, countsPass, c1]
       · intro id'
         by_cases hid : e.id = id'
         · subst hid; rw [hinfo]; simp [ctxOf, c1, ho]
         · rw [other id' hid]; simp only [findE_cons, hid, if_false, statCore_ents, hents1]; exact hs.ents id'
-      · simp only [statCore_log, hlog1, hs.log]; simp [recLog, recContrib, hi, ho]
+      · simp only [statCore_log, hlog1, hs.log]; simp [recLog, recContrib, recContribI, Op.addr, hi, ho]
     | panic =>
       let cP : Ctx := { c1 with err := some "panic" }
       cases fix with
@@ -698,13 +711,13 @@ theorem sim_entry {fix t0 h s} (hs : Sim fix t0 h s) (t : Nat) (e : EntryOp) (hT
         · refine nodesOk_ext (s := statCore s1 cP f) ?_ rfl rfl
           apply nodesOk_congr (nodesOk_statCore hN1 cP f _ 1 t (acts_pass t e.batch ht) (le_refl _))
           · intro r; rfl
-          · intro k; have := htc cP rfl rfl k; simp [evs, contrib, hi, this, ho, cP, c1]
-          · intro k; have := htc cP rfl rfl k; simp [gauge, gaugeDelta, hi, this, ho, countsPass, cP, c1]
+          · intro k; have := htc cP rfl rfl k; simp [evs, contrib, contribI, Op.addr, hi, this, ho, cP, c1]
+          · intro k; have := htc cP rfl rfl k; simp [gauge, gaugeDelta, gaugeDeltaI, Op.addr, hi, this, ho, countsPass, cP, c1]
         · intro id'
           by_cases hid : e.id = id'
           · subst hid; rw [hinfo]; simp [ctxOf, c1, cP, ho]
           · rw [other id' hid]; simp only [findE_cons, hid, if_false, statCore_ents, hents1]; exact hs.ents id'
-        · simp only [statCore_log, hlog1, hs.log]; simp [recLog, recContrib, hi, ho]
+        · simp only [statCore_log, hlog1, hs.log]; simp [recLog, recContrib, recContribI, Op.addr, hi, ho]
       | false =>
         have hst : apiEntry false s t e =
             { inb := s1.inb, nodes := s1.nodes, log := s1.log, ents := (e.id, cP) :: s1.ents } := by
@@ -715,13 +728,13 @@ theorem sim_entry {fix t0 h s} (hs : Sim fix t0 h s) (t : Nat) (e : EntryOp) (hT
         · refine nodesOk_ext (s := s1) ?_ rfl rfl
           apply nodesOk_congr hN1
           · intro r; rfl
-          · intro k; simp [evs, contrib, hi, ho]
-          · intro k; simp [gauge, gaugeDelta, hi, ho, countsPass]
+          · intro k; simp [evs, contrib, contribI, Op.addr, hi, ho]
+          · intro k; simp [gauge, gaugeDelta, gaugeDeltaI, Op.addr, hi, ho, countsPass]
         · intro id'
           by_cases hid : e.id = id'
           · subst hid; rw [hinfo]; simp [ctxOf, c1, cP, ho]
           · rw [other id' hid]; simp only [findE_cons, hid, if_false, hents1]; exact hs.ents id'
-        · simp only [hlog1, hs.log]; simp [recLog, recContrib, hi, ho]
+        · simp only [hlog1, hs.log]; simp [recLog, recContrib, recContribI, Op.addr, hi, ho]
 
 theorem sim_step {fix t0 h s} (hs : Sim fix t0 h s) (x : TOp) (hT : lastT t0 h ≤ x.1) (ht : 0 < x.1) :
     Sim fix t0 (x :: h) (step fix s x) := by
@@ -765,11 +778,12 @@ theorem sum_filter_eq_readW (sl : List (Slot Bucket)) (p : Slot Bucket → Bool)
       simpa using ihr
 
 /-- a view of interval `Iv ≤ 10 s` over a node that recorded `ev` reads the aligned-window reference over `ev` -/
-theorem nodeOk_window {n ev g T} (h : NodeOk n ev g T) (now Iv : Nat) (hT : T ≤ now) (hIv : Iv ≤ sampleCountTotal * bucketLen) :
+theorem nodeOk_window {n ev g T} (h : NodeOk n ev g T) (now Iv : Nat) (hT : T ≤ now) (hpos : 0 < now)
+    (hIv : Iv ≤ sampleCountTotal * bucketLen) :
     viewSum n.arr Iv now = refW bucketLen ev (cbs bucketLen now + bucketLen - Iv) (cbs bucketLen now) := by
   obtain ⟨hL, hn, _, tc, latest, inv, hl⟩ := h
   unfold viewSum viewVals rangeOf
-  simp only [hL, hn]
+  simp only [hL, hn, Nat.pos_iff_ne_zero.mp hpos, if_false]
   have hLpos : 0 < bucketLen := by decide
   have hc : cbs bucketLen now ≤ now := by unfold cbs; omega
   have hlt : now < cbs bucketLen now + bucketLen := by
